@@ -234,3 +234,33 @@ def ambiguous_repeats(tree):
             if op2 in (sre_c.MAX_REPEAT, sre_c.MIN_REPEAT) and av2[1] >= 1000 and len(inner) == 1:
                 out.append('an unbounded repetition directly inside an unbounded repetition')
     return out
+
+
+def optional_groups(tree):
+    """numbers of the capturing groups that can be None after a successful match (inside an optional / zero-or-more repeat or a branch)"""
+    out = set()
+
+    def rec(items, optional):
+        for (op, av) in items:
+            name = str(op)
+            if name == 'SUBPATTERN':
+                gid, sub = av[0], av[-1]
+                if gid is not None and optional:
+                    out.add(gid)
+                rec(list(sub), optional)
+            elif name in ('MAX_REPEAT', 'MIN_REPEAT', 'POSSESSIVE_REPEAT'):
+                lo, hi, sub = av
+                rec(list(sub), optional or lo == 0)
+            elif name == 'BRANCH':
+                for alt in av[1]:
+                    rec(list(alt), True)
+            elif name in ('ASSERT', 'ASSERT_NOT'):
+                rec(list(av[1]), optional)
+            elif name == 'GROUPREF_EXISTS':
+                for alt in av[1:]:
+                    if alt is not None:
+                        rec(list(alt), True)
+            elif name == 'ATOMIC_GROUP':
+                rec(list(av), optional)
+    rec(list(tree), False)
+    return out
